@@ -847,7 +847,12 @@ class FelicaLiteS(FelicaLite):
                     return False
 
             # if password is empty use factory key of 16 zero bytes
-            key = password[0:16].encode("ascii") if password else b'\0' * 16
+            if not password:
+                key = b'\0' * 16
+            elif isinstance(password, str):
+                key = password[0:16].encode("ascii")
+            else:
+                key = bytes(password[0:16])
 
             log.debug("protect with key %s", hexlify(key).decode())
             ckv = self.read_without_mac(0x86)
